@@ -12,6 +12,10 @@ T={
        "Characters limited to listed alphabets; lengths bounded (cover len == k*cols for every width).", "exhaustive input enumeration against the real implementation, exact expected-value oracle"),
 "C10":("All states reachable by an editing alphabet up to the depth bound are used as seeds; from each, every chain of <=2 resizes over 10 sizes; each resize judged by a relational oracle on logical lines and the cursor's logical position.",
        "Unlimited scrollback, primary screen, sizes <= 4x3.", BFS+" + exhaustive resize chains, relational oracle"),
+"C12":("All token strings of <=k tokens over 32 complete texts/sequences; for each, ALL 2^(n-1) cut patterns are covered by a cut-DAG (position x implementation fingerprint) and feed() per char; every final node compared (screen, cursor, dump, lines() when unlimited) with the single-call result.",
+       "DAG merging is sound because the future of a call boundary depends only on the implementation state (fingerprint of Debug).", "explicit-state exploration of the cut-DAG of the real implementation, differential oracle"),
+"C14":("Product exploration of (limited, unlimited) terminals fed the same histories (scroll regions, DL/IL at top, alt-screen excursions, per-char feeds) for limits 0,1,2,3,10,11; after every call: handed-out lines ++ lines() == unlimited lines(); TextCollector compared across limits/chunkings at every state.",
+       "Caller drains Changes.scrollback; no RIS/resize (as stated).", "explicit-state BFS of a product of two real terminals, relational invariant"),
 "C13":("BFS over scroll-producing feeds (drained / dropped / partially drained / per-char) and resizes for limits 0,1,2,3,9,10,11,20; bound checked after every feed_str/resize call; alternate screen must hold exactly `rows` lines.",
        "Alternate-screen status tracked syntactically; sizes tiny.", BFS+", invariant oracle after every call"),
 "C15":("BFS over all functions incl. resizes; before/after view snapshots of every feed_str/resize call are diffed cell by cell against Changes.lines.",
